@@ -57,6 +57,9 @@ func copyBlocks(target any, binding Binding) error {
 
 func copyBlock(v reflect.Value, block Block) error {
 	t := v.Type()
+	if k := t.Kind(); k != reflect.Struct {
+		return fmt.Errorf("block %s: expected struct, have: %s", block.Type, k)
+	}
 	if st, bt := t.Name(), block.Type; st != "" && !unsnakeEq(st, bt) {
 		return fmt.Errorf("mismatch: struct type %s, block type %s", st, bt)
 	}
@@ -92,11 +95,17 @@ func copyBlock(v reflect.Value, block Block) error {
 			return fmt.Errorf("found field %q but is unexported", f.Name)
 		}
 
-		namei := f.Index[0]
+		if x == nil {
+			return fmt.Errorf("block.%s has nil value", name)
+		}
+		fv, err := v.FieldByIndexErr(f.Index)
+		if err != nil {
+			return err
+		}
 		vx := reflect.ValueOf(x)
 
 		if vx.Type().AssignableTo(blockType) {
-			return copyBlock(v.Field(namei), x.(Block))
+			return copyBlock(fv, x.(Block))
 		}
 
 		if st, bt := f.Type, vx.Type(); !bt.AssignableTo(st) {
@@ -106,7 +115,7 @@ func copyBlock(v reflect.Value, block Block) error {
 			)
 		}
 
-		v.Field(namei).Set(vx)
+		fv.Set(vx)
 		return nil
 	}
 
